@@ -81,19 +81,25 @@ pub fn fail(sig: impl Into<String>, what: impl Into<String>) -> Sexp {
 }
 
 pub mod c11;
+pub mod c14;
+pub mod c13;
 pub mod c17;
 pub mod instr_io;
 pub mod c03;
 pub mod c16;
 pub mod c01;
+pub mod c19;
 
 pub fn all() -> Vec<Box<dyn Prop>> {
     vec![
         Box::new(c11::C11),
+        Box::new(c14::C14),
+        Box::new(c13::C13),
         Box::new(c17::C17),
         Box::new(c03::C03),
         Box::new(c16::C16),
         Box::new(c01::C01),
+        Box::new(c19::C19),
     ]
 }
 
